@@ -16,7 +16,8 @@ LEVEL = "model_checking"
 RULE = (
     "streams: every multiset of <= N timestamps from the grid x every warm-up/normal assignment; histories: every ordered set "
     "partition of the stream into batches (all arrival orders across clients x all cuts), each alone and interleaved with "
-    "batches of a second task; runner-supplied throughput streams (all positive, zero on alternate samples, all zero) separately. State = prefix of batches delivered to one real "
+    "batches of a second task; runner-supplied throughput streams (all positive, zero on alternate samples, all zero) separately; variants: clients of odd samples start 0.1 s later (batches in ascending / descending sample order), failed requests "
+    "with 0 operations (all normal ones / the last / all; quick: streams <= 3; thorough at 5 samples: one variant per family). State = prefix of batches delivered to one real "
     "ThroughputCalculator; transition = one calculate() call. non-trivial = history with >= 2 batches or >= 2 samples; "
     "distinct = (stream, partition, variant)"
 )
@@ -290,11 +291,13 @@ def _shard(arg):
             for p in range(nparts):
                 check_history(times, types, p, False, False, res)
                 check_history(times, types, p, True, False, res)
+                big = quick_small and n >= 5  # the longest streams of the thorough tier: one variant of each family
                 if len(times) > 1:
-                    check_history(times, types, p, False, False, res, skew=True)
+                    if not big:
+                        check_history(times, types, p, False, False, res, skew=True)
                     check_history(times, types, p, False, False, res, skew=True, rev=True)
                 if quick_small or len(times) <= 3:
-                    for zm in ("normal", "last", "all"):
+                    for zm in ("normal",) if big else ("normal", "last", "all"):
                         check_history(times, types, p, False, False, res, zeros=zm)
         # runner-supplied throughput: types all-normal and one mixed assignment
         for types in ((1,) * n, tuple(i % 2 for i in range(n))):
